@@ -22,6 +22,7 @@ import (
 	"golang.org/x/text/encoding/ianaindex"
 
 	req "github.com/imroc/req/v3"
+	pubh2 "github.com/imroc/req/v3/http2"
 )
 
 type Result struct {
@@ -105,7 +106,16 @@ func buildClient(o Opts, kind string) *req.Client {
 	} else if kind == "h2" {
 		c.EnableH2C().EnableForceHTTP2()
 		if o.H2MaxHeaderList > 0 {
-			c.SetHTTP2MaxHeaderListSize(uint32(o.H2MaxHeaderList))
+			// the same limit, configured in each of the ways the library offers
+			switch o.H2LimitVia {
+			case "settings-frame":
+				c.SetHTTP2SettingsFrame(pubh2.Setting{ID: pubh2.SettingMaxHeaderListSize, Val: uint32(o.H2MaxHeaderList)})
+			case "settings-frame-with-others":
+				c.SetHTTP2SettingsFrame(pubh2.Setting{ID: pubh2.SettingHeaderTableSize, Val: 65536}, pubh2.Setting{ID: pubh2.SettingEnablePush, Val: 0},
+					pubh2.Setting{ID: pubh2.SettingInitialWindowSize, Val: 6291456}, pubh2.Setting{ID: pubh2.SettingMaxHeaderListSize, Val: uint32(o.H2MaxHeaderList)})
+			default:
+				c.SetHTTP2MaxHeaderListSize(uint32(o.H2MaxHeaderList))
+			}
 		}
 	} else {
 		c.EnableForceHTTP1()
